@@ -20,7 +20,7 @@ DEFAULT_WEIGHTS = {
 
 
 class Gen:
-    def __init__(self, rng, weights=None, max_conns=5, uids=(0,), fdpass=False, names=None):
+    def __init__(self, rng, weights=None, max_conns=5, uids=(0,), fdpass=False, names=None, rule_uniques=True, big=None):
         self.r = rng
         self.w = dict(DEFAULT_WEIGHTS)
         if weights:
@@ -36,6 +36,8 @@ class Gen:
         self.stats = {}
         self.fdpass = fdpass
         self.names = list(names) if names else NAMES
+        self.rule_uniques = rule_uniques
+        self.big = big          # (size, weight): sometimes send a message around this size
 
     # ---- helpers
     def count(self, k):
@@ -157,6 +159,17 @@ class Gen:
             self.bus_call(cid, "RemoveMatch", "s", [rule])
         elif k == "signal":
             sig, vals = self.body()
+            if self.big and self.r.random() < self.big[1]:
+                # a message whose total length is exactly the limit plus a small delta
+                target = self.big[0] + self.r.choice([-9, -8, -1, 0, 1, 2, 3, 5, 7, 8, 9, 64])
+                dest = None if self.r.random() < 0.6 else self.some_dest()
+                args = (self.serial(cid), self.r.choice(PATHS).decode(), self.r.choice(IFACES).decode(), self.r.choice(MEMBERS).decode())
+                m0 = signal_msg(*args, "ay", [[]], dest=dest.decode() if dest else None)
+                self.r.shuffle(m0.fields)      # the fields array need not end on an 8-byte boundary
+                k = max(0, target - len(m0.marshal()))
+                m0.body = [[self.r.randrange(256) for _ in range(k)]]
+                self.send(cid, m0)
+                return
             dest = None if self.r.random() < 0.75 else self.some_dest()
             self.send(cid, signal_msg(self.serial(cid), self.r.choice(PATHS).decode(), self.r.choice(IFACES).decode(),
                                       self.r.choice(MEMBERS).decode(), sig, vals, dest=dest.decode() if dest else None,
@@ -261,7 +274,7 @@ class Gen:
 
     def gen_rule(self):
         x = self.r.random()
-        if x < 0.25:
+        if x < 0.25 and self.rule_uniques:
             return rulegen.gen_rule(self.r)
         parts = []
         if self.r.random() < 0.6: parts.append(b"type='" + self.r.choice([b"signal", b"signal", b"method_call", b"error", b"method_return"]) + b"'")
@@ -269,10 +282,10 @@ class Gen:
         if self.r.random() < 0.3: parts.append(b"member='" + self.r.choice(MEMBERS + [b"NameOwnerChanged"]) + b"'")
         if self.r.random() < 0.25: parts.append(self.r.choice([b"path='", b"path_namespace='"]) + self.r.choice(PATHS) + b"'")
         if self.r.random() < 0.25:
-            uniques = [v["unique"] for v in self.open.values() if v["unique"]]
+            uniques = [v["unique"] for v in self.open.values() if v["unique"]] if self.rule_uniques else []
             parts.append(b"sender='" + self.r.choice(NAMES + uniques + [BUS.encode()]) + b"'")
         if self.r.random() < 0.15:
-            uniques = [v["unique"] for v in self.open.values() if v["unique"]]
+            uniques = [v["unique"] for v in self.open.values() if v["unique"]] if self.rule_uniques else []
             parts.append(b"destination='" + self.r.choice(NAMES + uniques) + b"'")
         if self.r.random() < 0.2: parts.append(b"eavesdrop='" + self.r.choice([b"true", b"false"]) + b"'")
         if self.r.random() < 0.3:
